@@ -639,6 +639,10 @@ namespace
 
     std::vector <std::unique_ptr <value_die>> m_next;
 
+    // DIE's referenced by the DIE that is being processed.
+    std::unique_ptr <value_die> m_sched_spec;
+    std::unique_ptr <value_die> m_sched_ao;
+
     void
     schedule (Dwarf_Attribute &at)
     {
@@ -649,13 +653,23 @@ namespace
       if (dwarf_formref_die (&at, &die_mem) == nullptr)
 	throw_libdw ();
 
-      m_next.push_back
-	(std::make_unique <value_die> (m_dwctx, die_mem, 0, m_doneness));
+      // Keep the order in which @AT_* words look attributes up: what
+      // DW_AT_specification leads to goes before what
+      // DW_AT_abstract_origin leads to.
+      auto &slot = at.code == DW_AT_specification ? m_sched_spec : m_sched_ao;
+      if (slot == nullptr)
+	slot = std::make_unique <value_die> (m_dwctx, die_mem, 0, m_doneness);
     }
 
     bool
     next_die ()
     {
+      // M_NEXT is a stack: push what is to be visited later first.
+      if (m_sched_ao != nullptr)
+	m_next.push_back (std::move (m_sched_ao));
+      if (m_sched_spec != nullptr)
+	m_next.push_back (std::move (m_sched_spec));
+
       if (m_next.empty ())
 	return false;
 
@@ -1465,15 +1479,22 @@ or replaced since the Dwarf was opened.
 }
 
 
+namespace
+{
+  // Defined below, next to the @AT_* words.
+  bool find_integrated_attribute (Dwarf_Die die, int atname,
+				  Dwarf_Attribute &ret_at);
+}
+
 std::unique_ptr <value_str>
 op_name_die::operate (std::unique_ptr <value_die> a) const
 {
   if (a->is_cooked ())
     {
-      // On cooked DIE's, `name` integrates.
-      const char *name = dwarf_diename (&a->get_die ());
-      if (name != nullptr)
-	return std::make_unique <value_str> (name, 0);
+      // On cooked DIE's, `name` integrates, the same way @AT_name does.
+      Dwarf_Attribute attr;
+      if (find_integrated_attribute (a->get_die (), DW_AT_name, attr))
+	return std::make_unique <value_str> (dwpp_formstring (attr), 0);
       else
 	return nullptr;
     }
@@ -1757,6 +1778,14 @@ namespace
       }
 
     return std::make_pair (find_attribute_result::not_found, nullptr);
+  }
+
+  bool
+  find_integrated_attribute (Dwarf_Die die, int atname,
+			     Dwarf_Attribute &ret_at)
+  {
+    return find_attribute (die, atname, doneness::cooked, &ret_at, nullptr)
+      .first != find_attribute_result::not_found;
   }
 }
 
